@@ -55,6 +55,12 @@ func Generate(prop string, seed uint64, tier string) *Spec {
 	default:
 		panic("no generator for property " + prop)
 	}
+	switch spec.Kind {
+	case "history", "shared-expr", "per-task-expr", "ext-faults", "frame-seq", "shared-doc":
+		// one run in three uses package-level extensions: one set of
+		// function objects shared by every Expr of the process
+		spec.GlobalExts = g.k.Chance(1, 3)
+	}
 	return spec
 }
 
@@ -492,6 +498,20 @@ func (g *gen) extFaults(spec *Spec) {
 	}
 }
 
+// varPrograms operate directly on values registered as variables: $av (array
+// of numbers), $iv (array of objects), $ov (object with one member).
+var varPrograms = []string{
+	`$sort($av)`, `$reverse($av)`, `$append($av, $av)`, `$count($shuffle($av))`, `$zip($av, $av)`, `$distinct($av)`,
+	`$av^(>$)`, `$iv^(q)`, `$iv^(>q).p`, `$iv ~> |$|{"z": 1}|`, `$ov ~> |$|{"x": 1}, "k"|`, `$merge([$ov, {"k": "w"}])`,
+	`$map($iv, |$|{"t": 1}|)`, `$iv[0] ~> |$|{"q": 9}|`, `$sift($ov, function($v){true})`, `$each($ov, function($v,$k){$v})`,
+	`$spread($ov)`, `$iv.p`, `$iv{p: q}`, `$iv[q > 0]`, `$av[0]`, `$reduce($av, function($a,$b){$a + $b})`,
+	`$filter($av, function($v){$v > 1})`, `$map($av, function($v){$v * 2})`, `$string($iv)`, `$iv ~> |$|{"r": $$.n}|`,
+	`$sort($iv, function($a,$b){$a.q < $b.q})`, `$reverse($iv)`, `$append($iv, $ov)`, `$ ~> |$iv|{"w": 1}|`,
+	`[$av, $av].$reverse($)`, `$iv.$merge([$, {"m": 1}])`, `$lookup($ov, "k")`, `$keys($ov)`,
+	`($iv ~> |$|{"z": $error("late")}|)`, `$iv ~> |$|{"a": 1}| ~> |$|{"b": a + 1}, "a"|`,
+	`$av ~> $sort() ~> $reverse()`, `$sort($av, function($a,$b){$a > $b})[0]`, `$iv[1].(p & "!")`,
+}
+
 // ---- C07: frame condition -------------------------------------------------------
 
 func (g *gen) frameSeq(spec *Spec) {
@@ -515,6 +535,19 @@ func (g *gen) frameSeq(spec *Spec) {
 			g.wrapVar(&es, spec.Docs[g.w.Intn(nd)].ID)
 		}
 		spec.Exprs = append(spec.Exprs, es)
+	}
+	if g.w.Chance(1, 2) {
+		// sub-structures of d0 registered as variables on their own
+		d0 := spec.Docs[0]
+		for _, m := range []string{"nums", "items", "one"} {
+			spec.Docs = append(spec.Docs, DocSpec{ID: "d0." + m, JSON: d0.JSON, Alias: d0.Alias, Member: m, Parent: "d0"})
+		}
+		k := g.w.Range(1, 3)
+		for i := 0; i < k; i++ {
+			spec.Exprs = append(spec.Exprs, ExprSpec{ID: fmt.Sprintf("v%d", i), Text: varPrograms[g.w.Intn(len(varPrograms))], Family: "varops", Exts: true,
+				Vars: map[string]string{"av": "d0.nums", "iv": "d0.items", "ov": "d0.one"}})
+		}
+		ne = len(spec.Exprs)
 	}
 	for t := 0; t < nt; t++ {
 		var ops []Op
